@@ -367,6 +367,12 @@ func (l *queue) Append(b []byte) error {
 		return ErrQueueFull
 	}
 
+	// A block that cannot fit even an empty segment must not leave a new,
+	// empty tail segment behind (the queue would stop reporting itself empty).
+	if int64(len(b))+footerSize > l.maxSegmentSize {
+		return ErrSegmentFull
+	}
+
 	buffered := len(l.limiter) >= 10
 	defer func() {
 		if buffered && len(l.limiter) <= 1 {
